@@ -18,6 +18,8 @@ def _rewrite_special_characters(unit_expr):
     # Avoid a parse error if someone uses the percent unit and the
     # parser tries to interpret it as the modulo operator
     unit_expr = unit_expr.replace("%", "percent")
+    # str() of the temperature-difference units prints a Greek delta
+    unit_expr = unit_expr.replace("Δ", "delta_")
     return unit_expr.replace("°", "deg")
 
 
